@@ -210,6 +210,7 @@ def _obs():
     return obs
 
 
+PREFLIGHT = ['vp.doubles.conformance:symdf_conformance']
 OBLIGATIONS = _obs()
 ASSUMPTIONS = ['symdf contract (vp/doubles/symdf.py), checked against real pandas by the conformance pass']
 OUTSIDE = ['pandas aggregates themselves; unsigned/nullable-extension/categorical dtypes; +-inf and NaN-vs-None',
